@@ -33,6 +33,8 @@ _P10 = [1]
 
 
 def p10(k):
+    if k > 1200:
+        return 10 ** k
     while len(_P10) <= k:
         _P10.append(_P10[-1] * 10)
     return _P10[k]
@@ -149,8 +151,27 @@ def _scaled(N, q):
     return (N * p10(q), 1) if q >= 0 else (N, p10(-q))
 
 
+_NONDEC = re.compile(r"^0(?:[xX]([0-9a-fA-F]+)|[oO]([0-7]+)|[bB]([01]+))$")
+
+
+def nondecimal_value(s):
+    """integer value of a NonDecimalIntegerLiteral text (0x / 0o / 0b, no sign, no separators) or None"""
+    m = _NONDEC.match(s)
+    if not m:
+        return None
+    if m.group(1):
+        return int(m.group(1), 16)
+    if m.group(2):
+        return int(m.group(2), 8)
+    return int(m.group(3), 2)
+
+
 def str_to_bits(s):
-    """Correctly rounded StringNumericValue of a StrDecimalLiteral (no whitespace handling); None if not one."""
+    """Correctly rounded StringNumericValue of a StrDecimalLiteral or NonDecimalIntegerLiteral (no whitespace handling);
+    None if the text is neither."""
+    nd = nondecimal_value(s)
+    if nd is not None:
+        return round_ratio(nd, 1)
     p = parse_decimal(s)
     if p is None:
         return None
@@ -165,6 +186,9 @@ def str_to_bits_allowed(s):
     """Set of results ECMA-262 permits: the correctly rounded value, and - only when the text has more than 20
     significant digits - the values of the text with every significant digit after the 20th replaced by 0, and that
     incremented at the 20th digit."""
+    nd = nondecimal_value(s)
+    if nd is not None:
+        return {round_ratio(nd, 1)}
     p = parse_decimal(s)
     if p is None:
         return None
